@@ -8,6 +8,7 @@ CONSTANTS
   Forms = {"take", "read"}
   Kinds = {"V", "D"}
   Retransmit = FALSE
+  NoKey = FALSE
   GenK = 10
 CONSTRAINT Bound
 VIEW View
